@@ -4,10 +4,10 @@ import vf
 from _exitpolicy import par_tlc, q
 
 INVS = "TypeOK FrameLimit WholeCiphertexts NoLoss InOrderPrefix Complete Progress"
-DEVS = ["DevChunkBeforeOverhead", "DevMeshChunkIsMax", "DevFileNoSlackNoOverhead"]
+DEVS = ["DevChunkBeforeOverhead", "DevMeshChunkIsMax", "DevFileNoSlackNoOverhead", "DevBalancedLastChunk"]
 # data path of the code each deviation lives on (scenario kinds of the harness)
 DEV_KINDS = {"DevChunkBeforeOverhead": ("shellout", "shellin"), "DevMeshChunkIsMax": ("tcp", "forward"),
-             "DevFileNoSlackNoOverhead": ("upload", "download")}
+             "DevFileNoSlackNoOverhead": ("upload", "download"), "DevBalancedLastChunk": ("tcp", "forward")}
 PIPE_DEVS = ["DevStdinWriteUnderLock"]
 PIPE_INVS = "TypeOK Conservation NoStall LockOK"
 HFILES = ["common/common_test.go.tmpl", "agent/cmesh_test.go", "agent/frames_test.go"]
@@ -27,7 +27,9 @@ def cfg(max_=8, ovh=3, slack=1, msghdr=1, clientbuf=2, maxwrite=24, window=2, bi
 
 def model(ctx):
     quick = ctx.quick()
-    big = (1 << 20,) if quick else (1 << 20, 5 << 20)
+    # seeded random write sizes up to ~200 KiB (TLC evaluates the vectors for them too)
+    rnd = sorted({ctx.rng.randrange(2, 200 * 1024) for _ in range(24 if quick else 60)})
+    big = tuple(rnd) + ((1 << 20,) if quick else (1 << 20, 5 << 20))
     scaled = dict(max_=8, ovh=3, maxwrite=24, window=2) if quick else dict(max_=10, ovh=3, slack=2, clientbuf=3, maxwrite=30, window=3)
     jobs = {"ideal": dict(module="Chunking", cfg="MC.cfg", files={"MC.cfg": cfg(**scaled)}, name="ideal", workers=4),
             "vecs": dict(module="Chunking", cfg="Vec.cfg", name="vecs", workers=1, tags=("VEC", "VSUM"), files={"Vec.cfg": cfg(
@@ -61,13 +63,33 @@ def model(ctx):
     if not vecs or not vsum or vsum[0]["vecs"] != len(vecs):
         raise vf.Infra("Chunking: incomplete VEC output")
     res["ideal"].pipes_states = res["pipes"].distinct
+    res["ideal"].random_sizes = rnd
     return res["ideal"], vecs, vsum[0], caught, scaled
 
 
-def drive(ctx, vecs, vsum, corrupt=None):
-    sizes = sorted({v["n"] for v in vecs})
+def plan_sizes(ctx, vecs, vsum, rnd):
+    """Which write sizes each data path is driven with.
+    All sizes = boundary sizes, every size within 4 bytes of k*P (k = 1..10), the seeded random sizes, 1 MiB (5 MiB).
+    The paths through meshConn.Write (tcp, forward: cheap, deterministic chunker) always get ALL of them; the other
+    paths get all of them in the thorough tier and, in the quick tier, the boundary sizes plus a seeded sample."""
+    P = vsum["p"]
+    allsz = sorted({v["n"] for v in vecs})
+    base = [0, 1, P - 1, P, P + 1, 2 * P - 1, 2 * P, 2 * P + 1] + [x for x in allsz if x >= (1 << 20)]
+    near = [x for x in allsz if x not in base and x not in rnd]
+    out = {}
+    for k in KINDS:
+        if k in ("tcp", "forward") or not ctx.quick():
+            out[k] = allsz
+        else:
+            out[k] = sorted(set(base) | set(ctx.rng.sample(near, min(10, len(near)))) | set(ctx.rng.sample(rnd, min(4, len(rnd)))))
+    return allsz, out
+
+
+def drive(ctx, vecs, vsum, rnd, corrupt=None):
+    sizes, by_kind = plan_sizes(ctx, vecs, vsum, rnd)
     inp = os.path.join(ctx.work, "chunk_vecs.json")
-    vf.write_json(inp, {"max": vsum["max"], "ovh": vsum["ovh"], "sizes": sizes, "kinds": KINDS, "vecs": vecs})
+    vf.write_json(inp, {"max": vsum["max"], "ovh": vsum["ovh"], "sizes": sizes, "sizes_by_kind": by_kind, "kinds": KINDS,
+                        "vecs": vecs})
     env = {"ZZV_IN": inp}
     if corrupt:
         env["ZZV_CORRUPT"] = corrupt
